@@ -20,7 +20,7 @@ ANCHORS = ["TrajectoryPrediction._create_occupancy_set", "GoalRegion.is_reached"
            "LaneletNetwork.__getstate__", "ProtobufFileWriter.write_to_file", "XMLFileWriter.write_to_file",
            "MPRenderer.draw_scenario", "MPRenderer.draw_lanelet_network", "Scenario.occupancies_at_time_step",
            "LaneletNetwork.find_lanelet_by_position", "LaneletNetwork.map_obstacles_to_lanelets"]
-REQUIRED = ["draw.with-sign-symbols", "op.occupancy_at_time", "op.state_at_time", "op.occupancies_at_time_step", "op.find_lanelet_by_position",
+REQUIRED = ["registry-asked-at-steps-without-entries", "draw.with-sign-symbols", "op.occupancy_at_time", "op.state_at_time", "op.occupancies_at_time_step", "op.find_lanelet_by_position",
             "op.find_lanelet_by_shape", "op.map_obstacles_to_lanelets", "op.light_state", "op.is_reached",
             "op.goal_reached", "op.eq", "op.hash", "op.copy", "op.deepcopy", "op.pickle", "op.str", "op.draw",
             "op.export_xml", "op.export_pb", "state-without-orientation", "goal-lanelets.dict",
@@ -127,6 +127,10 @@ def run(ctx):
             for la in net.lanelets:
                 _ = la.distance, la.inner_distance, la.polygon
                 la.interpolate_position(float(la.distance[-1]) / 2)
+                # who is on this lanelet at a time step -- also at steps for which nothing is registered
+                for t_ in (0, 1, 2, 7, 50):
+                    la.dynamic_obstacle_by_time_step(t_)
+            ctx.feature("registry-asked-at-steps-without-entries")
         elif op == "successors_in_range":
             la = rng.choice(net.lanelets)
             la.find_lanelet_successors_in_range(net, 30.0)
